@@ -529,21 +529,26 @@ def compare(ex, st, op, a, b):
         raise _unsupported("float ordering")
     if a.ty == "py" or b.ty == "py":
         conds = []
-        if a.ty == "py":
-            conds.append(z3.Or(Py.is_int(a.t)))
-        elif a.ty not in num:
-            raise _unsupported("ordering")
-        if b.ty == "py":
-            conds.append(z3.Or(Py.is_int(b.t)))
-        elif b.ty not in num:
-            raise _unsupported("ordering")
+        for x in (a, b):
+            if x.ty == "py":
+                # ints and bools order as integers; a float operand is outside the subset (not a TypeError)
+                if not ex.total:
+                    fl, _ = ex.split(st.fork(), Py.is_float(x.t))
+                    if fl is not None:
+                        raise _unsupported("float ordering")
+                conds.append(z3.Or(Py.is_int(x.t), Py.is_bool(x.t)))
+            elif x.ty not in num:
+                raise _unsupported("ordering")
+
+        def ival(x):
+            if x.ty == "py":
+                return z3.If(Py.is_int(x.t), Py.i(x.t), z3.If(Py.b(x.t), z3.IntVal(1), z3.IntVal(0)))
+            return ex.as_int(x)
         for st1, r in ex.need(st, z3.And(*conds), "TypeError", "order"):
             if r is not None:
                 yield st1, r
             else:
-                x = Py.i(a.t) if a.ty == "py" else ex.as_int(a)
-                y = Py.i(b.t) if b.ty == "py" else ex.as_int(b)
-                yield st1, rel(x, y)
+                yield st1, rel(ival(a), ival(b))
         return
     if ex.total:
         raise _unsupported(f"ordering on {a.ty},{b.ty}")
